@@ -52,7 +52,7 @@ def monitorPutOk (env : Env) (a : AbsWorld) (r : Req) (etag : String) : Verdict 
   let target := Path.normpathS r.path
   let (cp, name) := Path.splitS target
   let existed := (a.files[target]?).isSome
-  let hk := if existed then hkOfName name else hkOfCtype r.ctype
+  let hk := if existed then hkOfName name else handlerFor (some r.ctype) name
   let stored := env.norm hk r.body
   let a' := { a with files := a.files.insert target stored }
   if !(condOk r.ifMatch r.ifNoneMatch (a.cur target)) then
@@ -77,7 +77,7 @@ def monitorPutRefused (env : Env) (a : AbsWorld) (r : Req) (why : String) : Verd
   let target := Path.normpathS r.path
   let (cp, name) := Path.splitS target
   let existed := (a.files[target]?).isSome
-  let hk := if existed then hkOfName name else hkOfCtype r.ctype
+  let hk := if existed then hkOfName name else handlerFor (some r.ctype) name
   if why == "no-uid-conflict" then
     (match env.uid hk r.body with
      | some u =>
